@@ -123,6 +123,16 @@ func (w *world) apply(r *rep.Report, o op) error {
 		if err == nil {
 			w.m[o.Loc].Rem(o.Id)
 		}
+	case "disable", "enable":
+		err = w.locs[o.Loc].EnableRule(ctx, o.Id, o.Op == "enable")
+		if err == nil {
+			pid := ref.PropId(o.Id, "disabled")
+			if o.Op == "enable" {
+				w.m[o.Loc].Rem(pid)
+			} else {
+				w.m[o.Loc].Put(pid, map[string]interface{}{"id": o.Id, "!disabled": true, "deleteWith": []interface{}{o.Id}})
+			}
+		}
 	case "clear":
 		err = w.locs[o.Loc].Clear(ctx)
 		if err == nil {
@@ -246,6 +256,13 @@ func (w *world) check(r *rep.Report, changed bool) {
 			vals = append(vals, fmt.Sprint(v))
 		}
 		tw := wit(rep.J{"tick_location": loc, "tick_id": id, "values": vals, "condition": cond})
+		if isLive && w.m[loc].Disabled(id) {
+			// a disabled scheduled rule stays registered but its ticks run nothing
+			if len(vals) > 0 {
+				r.Violate("", "a tick ran a scheduled rule that is disabled in its location", tw)
+			}
+			continue
+		}
 		if !isLive {
 			if len(vals) > 0 {
 				r.Violate("", "a tick for a removed / replaced / expired / cleared scheduled rule ran something", tw)
@@ -329,13 +346,13 @@ func campaign(r *rep.Report, e rep.Env) {
 					o.Op = "remFact"
 				}
 			case k < 17:
-				o.Op = "clear"
+				o.Op = []string{"clear", "disable", "enable"}[g.Intn(3)]
 			default:
 				o.Op = "reload"
 			}
 			before := fmt.Sprint(w.liveSched("A"), w.liveSched("B"), w.liveSched("C"))
 			if err := w.apply(r, o); err != nil {
-				if strings.Contains(err.Error(), "not found") && (o.Op == "remRule" || o.Op == "remFact") {
+				if strings.Contains(err.Error(), "not found") && (o.Op == "remRule" || o.Op == "remFact" || o.Op == "enable") {
 					// with cron hooks installed the remove-hook looks the id up first: removing an
 					// absent id is an error and changes nothing (operation not acknowledged)
 					r.Count("rem_of_absent_id", 1)
